@@ -4,50 +4,50 @@
   kernel (`decide`).  It provides the `Ops` instance `f32Ops` over which the driver runs the
   adaptive cut-off model; every operation is differentially tested against the hardware by
   `harness/src/bin/c37.rs` (`op` requests), so a bug here shows as a correspondence failure.
+
+  Representation: every finite binary32 is an integer multiple of `2^-149`; a finite value is kept
+  as sign + magnitude `k` in these units.  Every operation computes its exact result as a rational
+  `N / D` units and rounds it with the one function `roundMag`, whose monotonicity is what the
+  theorem `f32Laws` (MvProps/C37F32.lean) rests on.
 -/
 import MvModel.Adaptive
 namespace Mv.F32
 
 /-- precision (bits of the significand, hidden bit included) -/
 def P : Nat := 24
-/-- exponent of the unit of the subnormals: the least positive value is `2^EMIN` -/
-def EMIN : Int := -149
-/-- largest exponent of a significand unit: `MAX = (2^24 - 1) * 2^EMAX` -/
-def EMAX : Int := 104
+/-- one unit is `2^-UNIT`, the least positive subnormal -/
+def UNIT : Nat := 149
+/-- the least magnitude, in units, that overflows: `2^128` -/
+def OVF : Nat := 2 ^ 128 * 2 ^ 149
 
-/-- an unpacked binary32: finite values are `(-1)^neg * m * 2^e`, canonical when
-    `m < 2^24`, `EMIN ≤ e ≤ EMAX`, and `m < 2^23 → e = EMIN` -/
+/-- sign and magnitude in units of `2^-149` -/
 inductive F where
   | nan
   | inf (neg : Bool)
-  | fin (neg : Bool) (m : Nat) (e : Int)
+  | fin (neg : Bool) (k : Nat)
 deriving DecidableEq, Repr
 
 /-- number of bits of `m` (0 for 0) -/
 def bitLen (m : Nat) : Nat := if m = 0 then 0 else Nat.log2 m + 1
 
-/-- round the exact value `m * 2^e` (strictly more, by less than one unit `2^e`, when `sticky`)
-    to binary32, nearest-even.  With `sticky` the caller supplies at least `P + 2` bits in `m`. -/
-def round (neg : Bool) (m : Nat) (e : Int) (sticky : Bool) : F :=
-  if m = 0 && !sticky then .fin neg 0 EMIN
-  else
-    let nb : Int := bitLen m
-    let e' : Int := if e + nb - P < EMIN then EMIN else e + nb - P
-    if e' ≤ e then
-      -- exact: fewer than P significant bits, no shifting out
-      let m' := m <<< (e - e').toNat
-      if e' > EMAX then .inf neg else .fin neg m' e'
-    else
-      let sh := (e' - e).toNat
-      let q := m >>> sh
-      let rem := m % (2 ^ sh)
-      let half := 2 ^ (sh - 1)
-      let up := rem > half || (rem == half && (sticky || q % 2 == 1))
-      let q' := if up then q + 1 else q
-      let (q'', e'') := if q' == 2 ^ P then (2 ^ (P - 1), e' + 1) else (q', e')
-      if e'' > EMAX then .inf neg else .fin neg q'' e''
+/-- `2^shiftOf q` units is the spacing of binary32 around the magnitude `q` (subnormals and the
+    first normal binade have spacing one unit) -/
+def shiftOf (q : Nat) : Nat := bitLen q - P
 
-def zero (neg : Bool) : F := .fin neg 0 EMIN
+/-- round the non-negative rational `N / D` units to the nearest representable magnitude, ties to
+    the even significand; unbounded exponent range (overflow is decided by `roundQ`) -/
+def roundMag (N D : Nat) : Nat :=
+  let sh := shiftOf (N / D)
+  let T := D * 2 ^ sh
+  let q := N / T
+  let rem := N % T
+  let up := decide (2 * rem > T) || (2 * rem == T && q % 2 == 1)
+  (if up then q + 1 else q) * 2 ^ sh
+
+/-- round `(-1)^neg * N / D` units to binary32 -/
+def roundQ (neg : Bool) (N D : Nat) : F :=
+  let k := roundMag N D
+  if k ≥ OVF then .inf neg else .fin neg k
 
 def isNaN : F → Bool
   | .nan => true
@@ -56,12 +56,15 @@ def isNaN : F → Bool
 def neg : F → F
   | .nan => .nan
   | .inf s => .inf (!s)
-  | .fin s m e => .fin (!s) m e
+  | .fin s k => .fin (!s) k
 
 def abs : F → F
   | .nan => .nan
   | .inf _ => .inf false
-  | .fin _ m e => .fin false m e
+  | .fin _ k => .fin false k
+
+/-- the signed magnitude of a finite value -/
+def key (s : Bool) (k : Nat) : Int := if s then -(k : Int) else (k : Int)
 
 def add : F → F → F
   | .nan, _ => .nan
@@ -69,13 +72,10 @@ def add : F → F → F
   | .inf a, .inf b => if a == b then .inf a else .nan
   | .inf a, .fin .. => .inf a
   | .fin .., .inf b => .inf b
-  | .fin sa ma ea, .fin sb mb eb =>
-    let e := if ea ≤ eb then ea else eb
-    let va : Int := (ma <<< (ea - e).toNat : Nat)
-    let vb : Int := (mb <<< (eb - e).toNat : Nat)
-    let v : Int := (if sa then -va else va) + (if sb then -vb else vb)
-    if v == 0 then zero (sa && sb)        -- x + (-x) = +0; (-0) + (-0) = -0
-    else round (decide (v < 0)) v.natAbs e false
+  | .fin sa ka, .fin sb kb =>
+    let v : Int := key sa ka + key sb kb
+    if v == 0 then .fin (sa && sb) 0      -- x + (-x) = +0; (-0) + (-0) = -0
+    else roundQ (decide (v < 0)) v.natAbs 1
 
 def sub (a b : F) : F := add a (neg b)
 
@@ -83,23 +83,19 @@ def mul : F → F → F
   | .nan, _ => .nan
   | _, .nan => .nan
   | .inf a, .inf b => .inf (a != b)
-  | .inf a, .fin sb mb _ => if mb == 0 then .nan else .inf (a != sb)
-  | .fin sa ma _, .inf b => if ma == 0 then .nan else .inf (sa != b)
-  | .fin sa ma ea, .fin sb mb eb => round (sa != sb) (ma * mb) (ea + eb) false
+  | .inf a, .fin sb kb => if kb == 0 then .nan else .inf (a != sb)
+  | .fin sa ka, .inf b => if ka == 0 then .nan else .inf (sa != b)
+  | .fin sa ka, .fin sb kb => roundQ (sa != sb) (ka * kb) (2 ^ UNIT)
 
 def div : F → F → F
   | .nan, _ => .nan
   | _, .nan => .nan
   | .inf _, .inf _ => .nan
-  | .inf a, .fin sb _ _ => .inf (a != sb)
-  | .fin sa _ _, .inf b => zero (sa != b)
-  | .fin sa ma ea, .fin sb mb eb =>
-    if mb == 0 then (if ma == 0 then .nan else .inf (sa != sb))
-    else if ma == 0 then zero (sa != sb)
-    else
-      let k : Nat := 3 * P
-      let num := ma <<< k
-      round (sa != sb) (num / mb) (ea - eb - k) (num % mb != 0)
+  | .inf a, .fin sb _ => .inf (a != sb)
+  | .fin sa _, .inf b => .fin (sa != b) 0
+  | .fin sa ka, .fin sb kb =>
+    if kb == 0 then (if ka == 0 then .nan else .inf (sa != sb))
+    else roundQ (sa != sb) (ka * 2 ^ UNIT) kb
 
 /-- integer square root by bisection on `fuel` bits: the largest `r` with `r * r ≤ n` below `2^fuel` -/
 def isqrtGo (n : Nat) : Nat → Nat → Nat
@@ -111,16 +107,15 @@ def isqrt (n : Nat) : Nat := isqrtGo n (bitLen n / 2 + 1) 0
 def sqrt : F → F
   | .nan => .nan
   | .inf s => if s then .nan else .inf false
-  | .fin s m e =>
-    if m == 0 then zero s
+  | .fin s k =>
+    if k == 0 then .fin s 0
     else if s then .nan
     else
-      -- scale to an even exponent and at least 2 * (P + 2) bits
-      let k0 : Nat := 2 * (P + 2)
-      let k : Nat := if (e - k0) % 2 == 0 then k0 else k0 + 1
-      let M := m <<< k
+      -- sqrt(k * 2^-149) = sqrt(k * 2^149) units = sqrt(M) / 2 units with M = 4 * k * 2^149
+      let M := 4 * k * 2 ^ UNIT
       let r := isqrt M
-      round false r ((e - k) / 2) (r * r != M)
+      if r * r == M then roundQ false r 2
+      else roundQ false (2 * r + 1) 4     -- any point strictly between r/2 and (r+1)/2 rounds alike
 
 /-- `a < b`; false when either is NaN; `-0 = +0` -/
 def lt : F → F → Bool
@@ -129,33 +124,32 @@ def lt : F → F → Bool
   | .inf a, .inf b => a && !b
   | .inf a, .fin .. => a
   | .fin .., .inf b => !b
-  | .fin sa ma ea, .fin sb mb eb =>
-    let e := if ea ≤ eb then ea else eb
-    let va : Int := (ma <<< (ea - e).toNat : Nat)
-    let vb : Int := (mb <<< (eb - e).toNat : Nat)
-    decide ((if sa then -va else va) < (if sb then -vb else vb))
+  | .fin sa ka, .fin sb kb => decide (key sa ka < key sb kb)
 
 /-- `n as f32` -/
-def ofNat (n : Nat) : F := round false n 0 false
+def ofNat (n : Nat) : F := roundQ false (n * 2 ^ UNIT) 1
 
 /-- `f32::EPSILON = 2^-23` -/
-def eps : F := .fin false (2 ^ 23) (-46)
+def eps : F := .fin false (2 ^ 126)
 
 def ofBits (b : Nat) : F :=
   let s := (b >>> 31) % 2 == 1
   let ex := (b >>> 23) % 256
   let fr := b % 2 ^ 23
   if ex == 255 then (if fr == 0 then .inf s else .nan)
-  else if ex == 0 then .fin s fr EMIN
-  else .fin s (fr + 2 ^ 23) ((ex : Int) - 150)
+  else if ex == 0 then .fin s fr
+  else .fin s ((fr + 2 ^ 23) * 2 ^ (ex - 1))
 
 /-- canonical bit pattern (every NaN is `0x7FC00000`) -/
 def toBits : F → Nat
   | .nan => 0x7FC00000
   | .inf s => (if s then 0x80000000 else 0) + 0x7F800000
-  | .fin s m e =>
+  | .fin s k =>
     (if s then 0x80000000 else 0) +
-      (if m < 2 ^ 23 then m else ((e + 150).toNat <<< 23) + (m - 2 ^ 23))
+      (if k < 2 ^ 23 then k
+       else
+         let sh := shiftOf k
+         ((sh + 1) <<< 23) + ((k >>> sh) - 2 ^ 23))
 
 def isFinite : F → Bool
   | .fin .. => true
